@@ -9,10 +9,15 @@ open Cascette.Props.C03
 #print axioms enc_zero_ekey_counter_witness
 #print axioms toc_search_sound
 #print axioms block_search_eq_linear_scan
+#print axioms toc_search_complete
+#print axioms toc_search_eq_lookup
 #print axioms group_find_eq_linear_scan
 #print axioms root_header_roundtrip_partial
 #print axioms root_ext_header_roundtrip
 #print axioms root_header_ambiguity_counter_witness
 #print axioms fdid_delta_roundtrip
+#print axioms root_parse_build
+#print axioms root_resolve_eq_inserted
+#print axioms resolver_chain
 #print axioms tvfs_path_roundtrip_partial
 #print axioms tvfs_name_255_counter_witness
